@@ -8,9 +8,28 @@ open Rbdl
 
 abbrev Q := Rat
 
+/-- decimal / scientific notation as printed by the C++ side (`%.17g`), read exactly -/
+def parseDec (s : String) : Option Q :=
+  let (mant, ex) : String × Int := match s.splitOn "e" with
+    | [m, e] => (m, (e.toInt?).getD 0)
+    | _ => (s, 0)
+  let neg := mant.startsWith "-"
+  let mant := if neg then (mant.drop 1).toString else mant
+  let (ip, fp) : String × String := match mant.splitOn "." with
+    | [a, b] => (a, b)
+    | _ => (mant, "")
+  match (ip ++ fp).toNat? with
+  | none => none
+  | some n =>
+    let e10 : Int := ex - fp.length
+    let v : Q := if e10 ≥ 0 then (n : Q) * ((10 : Q) ^ e10.toNat) else (n : Q) / ((10 : Q) ^ (-e10).toNat)
+    some (if neg then -v else v)
+
 def parseRat (s : String) : Option Q :=
   match s.splitOn "/" with
-  | [a] => a.toInt?.map (fun i => (i : Q))
+  | [a] => match a.toInt? with
+    | some i => some (i : Q)
+    | none => parseDec a
   | [a, b] => do
       let n ← a.toInt?
       let d ← b.toNat?
@@ -74,27 +93,28 @@ inductive JSpec where
   | joint (j : Joint Q)
   | custom (k : CustomKind)
 
-def parseJSpec (t : Toks) : JSpec × Toks :=
+def parseJSpec (t : Toks) : JSpec × Spec.JDesc Q × Toks :=
   let (k, t) := t.next
   match k with
   | "T" =>
     let (n, t) := t.next
     match Joint.ofType (α := Q) (jtOfName n) with
-    | some j => (.joint j, t)
-    | none => (.joint Joint.root, { t with ok := false })
-  | "R" => let (a, t) := t.v3; (.joint (Joint.revolute a), t)
-  | "P" => let (a, t) := t.v3; (.joint (Joint.prismatic a), t)
+    | some j => (.joint j, .typed (jtOfName n), t)
+    | none => (.joint Joint.root, .undefined, { t with ok := false })
+  | "R" => let (a, t) := t.v3; (.joint (Joint.revolute a), .revolute a, t)
+  | "P" => let (a, t) := t.v3; (.joint (Joint.prismatic a), .prismatic a, t)
   | "A" =>
     let (n, t) := t.nat
     let (as, t) := t.svs n
-    if n = 1 then (.joint (Joint.ofAxis (as.headD SV.zero)), t) else (.joint (Joint.ofAxes as), t)
+    if n = 1 then (.joint (Joint.ofAxis (as.headD SV.zero)), .axes as, t)
+    else (.joint (Joint.ofAxes as), .axes as, t)
   | "C" =>
     let (n, t) := t.next
     let kind : CustomKind := match n with
       | "revX" => .revX | "eulerZYX" => .eulerZYX | _ => .cyl
-    (.custom kind, t)
-  | "U" => (.joint Joint.root, t)
-  | _ => (.joint Joint.root, { t with ok := false })
+    (.custom kind, .custom kind, t)
+  | "U" => (.joint Joint.root, .undefined, t)
+  | _ => (.joint Joint.root, .undefined, { t with ok := false })
 
 def parseBody (t : Toks) : Body Q × Toks :=
   let (m, t) := t.rat; let (c, t) := t.v3; let (I, t) := t.m3; let (v, t) := t.nat
@@ -110,11 +130,13 @@ structure DS where
   fext : Option (Nat → SV Q)
   caseId : String
   callNo : Nat
+  sb : Spec.SB Q
+  impl : List String := []
 
 def DS.fresh (id : String) : DS :=
   let m : ModelS Q := ModelS.init
   { m := m, w := initWS m, st := ⟨fun _ => 0, fun _ => 1, fun _ => 0⟩, qd := fun _ => 0,
-    qdd := fun _ => 0, tau := fun _ => 0, fext := none, caseId := id, callNo := 0 }
+    qdd := fun _ => 0, tau := fun _ => 0, fext := none, caseId := id, callNo := 0, sb := Spec.SB.init }
 
 /-- keep the workspace entries of existing bodies / custom joints, initialise the new ones -/
 def mergeWS (old : WS Q) (nOld cOld fOld : Nat) (ini : WS Q) : WS Q :=
@@ -201,6 +223,10 @@ def parseQEntries (t : Toks) (n : Nat) : (List (Q × Q × Q)) × Toks :=
     | none => ([], { t with ok := false })
     | some e => let (es, t) := parseQEntries t k; (e :: es, t)
 
+def DS.specModel (d : DS) : Spec.SModel Q := Spec.SModel.finalize d.sb.M
+def DS.specState (d : DS) : Spec.State Q := ⟨d.st.q, d.st.c, d.st.s, d.qd, d.qdd⟩
+def DS.fextFn (d : DS) : Nat → SV Q := match d.fext with | some f => f | none => fun _ => SV.zero
+
 def out (d : DS) (name : String) (body : String) : DS × String :=
   ({ d with callNo := d.callNo + 1 }, s!"{d.caseId}.{d.callNo} {name} {body}")
 
@@ -216,7 +242,9 @@ def doCall (d : DS) (t : Toks) : DS × String :=
   match name with
   | "ID" =>
     let (w, tau) := inverseDynamics m d.w d.st d.qd d.qdd (fun _ => 0) d.fext
-    out { d with w := w } name (showVec tau nd)
+    let spec := Spec.newtonEulerTau d.specModel d.specState d.fextFn
+    let (d', s) := out { d with w := w } name (showVec tau nd)
+    (d', s ++ s!"\n{d.caseId}.{d.callNo} ID.spec {showList spec}")
   | "NE" =>
     let (w, tau) := nonlinearEffects m d.w d.st d.qd (fun _ => 0) d.fext
     out { d with w := w } name (showVec tau nd)
@@ -307,11 +335,11 @@ def step (d : DS) (line : String) : DS × Option String :=
     | "case" => (DS.fresh (rest.headD "?"), none)
     | "gravity" =>
       let (g, _) := t.v3
-      ({ d with m := { d.m with gravity := g } }, none)
+      ({ d with m := { d.m with gravity := g }, sb := { d.sb with M := { d.sb.M with gravity := g } } }, none)
     | "add" | "append" =>
       let (parent, t) := if cmd = "add" then t.nat else (d.m.prevBodyId, t)
       let (X, t) := t.xt
-      let (js, t) := parseJSpec t
+      let (js, jd, t) := parseJSpec t
       let (b, t) := parseBody t
       let (nm, t) := t.next
       let nm := if nm = "-" then "" else nm
@@ -320,7 +348,8 @@ def step (d : DS) (line : String) : DS × Option String :=
         | .joint j => d.m.addBody parent X j b nm
         | .custom k => d.m.addBodyCustomJoint parent X k b nm
       let (d, s) := afterAdd d r cmd
-      (d, some s)
+      let (sb', _) := d.sb.add parent X.E X.r jd b.mass b.com b.inertia
+      ({ d with sb := sb' }, some s)
     | "setmass" =>
       let (id, t) := t.nat; let (x, _) := t.rat
       let (d, s) := afterSet d (d.m.setBodyMass id x) id cmd; (d, some s)
@@ -366,7 +395,8 @@ def step (d : DS) (line : String) : DS × Option String :=
     | "poison" =>
       let (seed, _) := t.nat
       ({ d with w := poison d.m d.w seed }, none)
-    | "call" => let (d, s) := doCall d t; (d, some s)
+    | "impl" => ({ d with impl := rest }, none)
+    | "call" => let (d, s) := doCall d t; ({ d with impl := [] }, some s)
     | _ => let (d, s) := out d cmd "bad-op"; (d, some s)
 
 partial def loop (h : IO.FS.Stream) (o : IO.FS.Stream) (d : DS) : IO Unit := do
